@@ -217,6 +217,28 @@ fn handle(line: &str) -> String {
             }
             out.join(" ")
         }
+        "checkafter" => {
+            // checkafter <fen...>: for every legal move, in generation order, what the SUCCESSOR OBJECT built by
+            // make-move answers: State::is_check, Board::is_check for both colours (never re-read from FEN)
+            let Some(state) = parse_fen(&parts[1..].join(" ")) else {
+                return "badfen".into();
+            };
+            let set = MoveGenerator::compute_legal_moves(&state);
+            let v: Vec<String> = set
+                .moves()
+                .iter()
+                .map(|r| {
+                    let n = &r.1;
+                    format!(
+                        "{}{}{}",
+                        n.is_check() as u8,
+                        n.board().is_check(Color::White) as u8,
+                        n.board().is_check(Color::Black) as u8
+                    )
+                })
+                .collect();
+            format!("{} {}", v.len(), v.join(" "))
+        }
         "slider" => {
             let sq = Square::try_from(parts[2].parse::<u8>().unwrap()).unwrap();
             let occ = BitBoard::from(parts[3].parse::<u64>().unwrap());
